@@ -38,6 +38,15 @@ def jdefault(o):
     return repr(o)
 
 
+def canon(obj):
+    """Canonical text of an execution result (bytes replaced by length + hash): the event log that must replay."""
+    def d(o):
+        if isinstance(o, (bytes, bytearray)):
+            return {'$sha': hashlib.sha256(bytes(o)).hexdigest()[:20], 'len': len(o)}
+        return jdefault(o)
+    return json.dumps(obj, sort_keys=True, default=d)
+
+
 def digest(obj):
     return hashlib.sha256(json.dumps(obj, sort_keys=True, default=jdefault).encode()).hexdigest()[:16]
 
@@ -117,8 +126,15 @@ def run_case(item):
     case['property'] = prop
     case['seed'] = seed
     case['idx'] = idx
-    res = o.check_case(case, runner.execute)
+    h = hashlib.sha256()
+
+    def ex(sc):
+        r = runner.execute(sc)
+        h.update(canon(r['steps']).encode())
+        return r
+    res = o.check_case(case, ex)
     res['idx'] = idx
+    res['trace'] = h.hexdigest()[:20]
     res['avoid_on'] = bool(avoid)
     if res['violations'] or idx < 3:
         res['case'] = case
@@ -341,6 +357,7 @@ class Aggregate:
         self.seams = {}
         self.case_wall = 0.0
         self.skipped = {}
+        self.traces = []
 
     def add(self, res, wall):
         self.cases += 1
@@ -365,6 +382,7 @@ class Aggregate:
         for k, v in (st.get('seams') or {}).items():
             self.seams[k] = self.seams.get(k, True) and bool(v)
         self.case_wall += wall
+        self.traces.append((res.get('idx'), res.get('trace')))
         if 'case' in res and len(self.samples) < 2 and not res['violations']:
             self.samples.append(_sample(res['case']))
         if res['violations']:
